@@ -41,7 +41,7 @@ REAL_VS_STUB = {
 }
 TIERS = {
     "quick": {"runs": 40000, "budget_s": 50, "chunk": 250, "det_pairs": 64, "fresh": 6},
-    "thorough": {"runs": 600000, "budget_s": 900, "chunk": 500, "det_pairs": 512, "fresh": 32},
+    "thorough": {"runs": 600000, "budget_s": 900, "chunk_timeout": 900, "chunk": 500, "det_pairs": 512, "fresh": 32},
 }
 PATHS = ["new", "inplace", "data", "data_out_a"]
 _COMPILED: dict = {}
